@@ -236,7 +236,13 @@ func head(b []byte, n int) []byte {
 
 // carry puts payload bytes at the end of a packet with adaptation-field stuffing.
 func carry(r *gen.Rand, pay []byte, pusi bool) packet.Packet {
-	pk := ref.PayloadPacket(16+r.Intn(8000), r.Intn(16), pusi, pay)
+	// any PID of the 13-bit field, its ends and the PIDs with a meaning of their own included: the condition
+	// names none
+	pid := 16 + r.Intn(8000)
+	if r.Chance(6) {
+		pid = r.PickInt([]int{0x1fff, 0x1fff, 0x1ffe, 0, 1, 2, 0x10, 0x11, 0x12, 15, 8016 + r.Intn(175)})
+	}
+	pk := ref.PayloadPacket(pid, r.Intn(16), pusi, pay)
 	// header bits the condition does not mention: scrambling control, priority, error indicator
 	pk[3] |= byte(r.PickInt([]int{0, 0, 1, 2, 3})) << 6
 	if r.Chance(4) {
